@@ -423,8 +423,9 @@ func engRestart(seed int64, tier string, _ []string, out *sx.Out) {
 				b, s = runHistory(env, loc, hseed, steps, -1)
 			}
 			b.shutdown()
+			rsPlayed++
 			if b.raceHit {
-				out.Comment(fmt.Sprintf("history %d backend %s skipped: take-over race C14-1 removed a live client from the Clients map", i, beNames[be]))
+				skipHistory(out, fmt.Sprintf("history %d backend %s skipped (stuck=%v): take-over race C14-1 removed a live client from the Clients map, or the broker did not come to rest", i, beNames[be], b.stuck))
 				env.discard(loc)
 				continue
 			}
@@ -477,8 +478,9 @@ func engCrash(seed int64, tier string, _ []string, out *sx.Out) {
 				loc := env.fresh(be)
 				b, s := play(loc, k)
 				b.shutdown()
+				rsPlayed++
 				if b.raceHit {
-					out.Comment(fmt.Sprintf("history %d backend %s k=%d skipped: take-over race C14-1", i, beNames[be], k))
+					skipHistory(out, fmt.Sprintf("history %d backend %s k=%d skipped (stuck=%v): take-over race C14-1 or no quiescence", i, beNames[be], k, b.stuck))
 					env.discard(loc)
 					continue
 				}
